@@ -317,6 +317,20 @@ func buildCatalogue() []item {
 			})
 		}
 	}
+	// the time-stamping purpose next to another one, in both orders of encoding
+	for _, o := range []struct {
+		n    string
+		oids []asn1.ObjectIdentifier
+	}{{"unknown-then-ts", []asn1.ObjectIdentifier{pki.OIDUnknownEKU, pki.EKUOID(x509.ExtKeyUsageTimeStamping)}},
+		{"any-then-ts", []asn1.ObjectIdentifier{pki.EKUOID(x509.ExtKeyUsageAny), pki.EKUOID(x509.ExtKeyUsageTimeStamping)}},
+		{"ts-then-any", []asn1.ObjectIdentifier{pki.EKUOID(x509.ExtKeyUsageTimeStamping), pki.EKUOID(x509.ExtKeyUsageAny)}},
+		{"cs-then-ts", []asn1.ObjectIdentifier{pki.EKUOID(x509.ExtKeyUsageCodeSigning), pki.EKUOID(x509.ExtKeyUsageTimeStamping)}},
+		{"ts-then-unknown", []asn1.ObjectIdentifier{pki.EKUOID(x509.ExtKeyUsageTimeStamping), pki.OIDUnknownEKU}}} {
+		o := o
+		add("tsleaf-eku-order-"+o.n, false, tsLeaf, func(d *desc, pos int) {
+			d.specs[0].EKU, d.specs[0].EKUUnknown, d.specs[0].EKURaw, d.specs[0].EKUCritical = nil, nil, o.oids, true
+		})
+	}
 	// --- CAs -----------------------------------------------------------------------
 	add("ca-bc-absent", false, caOnly, func(d *desc, pos int) { d.specs[pos].BC = pki.BCAbsent })
 	add("ca-bc-ca-false", false, caOnly, func(d *desc, pos int) { d.specs[pos].BC = pki.BCLeaf })
